@@ -3,13 +3,17 @@ package harness
 import (
 	"bytes"
 	"fmt"
+	"io"
 	"reflect"
 	"strings"
 
-	"verif/pkg/bridge"
+	"github.com/200sc/bebop/iohelp"
 
+	"verif/pkg/bridge"
 	"verif/pkg/prng"
+	"verif/pkg/proto"
 	"verif/pkg/refcodec"
+	"verif/pkg/reg"
 	"verif/pkg/schema"
 	"verif/pkg/simnet"
 	"verif/pkg/val"
@@ -94,7 +98,7 @@ func drawDirty(r *prng.Rand) *Dirty {
 	return d
 }
 
-var readerKinds = []string{"plain", "bytereader", "errorreader", "bufio", "fat"}
+var readerKinds = []string{"plain", "bytereader", "errorreader", "bufio", "fat", "limited", "limited-tight", "bytesreader", "bytesbuffer"}
 var writerKinds = []string{"plain", "errorwriter", "fat"}
 
 // drawSchedule draws a chunk schedule for data (spans may be nil).
@@ -415,6 +419,7 @@ func execRoundTripInner(n *Node, sc *Scenario) *Violation {
 func init() {
 	props["C02"] = runC02
 	execs["encoders"] = execEncoders
+	execs["enchistory"] = execEncHistory
 }
 
 func runC02(c *Ctx) *Replay {
@@ -448,6 +453,152 @@ func runC02(c *Ctx) *Replay {
 		c.Log(i, viol == nil)
 		if viol != nil {
 			return c.shrinkAndReport(&sc, viol)
+		}
+	}
+	// a HISTORY of encodes: several records, two destinations, writers the caller keeps,
+	// a second caller overtaking at a Write
+	if c.R.Chance(1, 2) {
+		hs := c.encHistory(pk)
+		viol := execEncHistory(c.N, hs)
+		c.Count("evaluations", 1)
+		c.Count("enc_histories", 1)
+		nested := 0
+		for _, op := range hs.EncOps {
+			if op.Inner != nil {
+				nested++
+			}
+		}
+		c.Count("enc_overlaps", int64(nested))
+		c.State("c02h", shape, fmt.Sprint(len(hs.EncOps)), fmt.Sprint(nested))
+		if viol != nil {
+			return c.shrinkAndReport(hs, viol)
+		}
+	}
+	return nil
+}
+
+// encHistory draws a history of EncodeBebop calls onto two destinations: 2-5 records of the
+// program, plain and caller-held ErrorWriters, and now and then a second caller's encode
+// that overtakes the first at one of its Write calls.
+func (c *Ctx) encHistory(pk *pick) *Scenario {
+	b := pk.B
+	sc := &Scenario{Kind: "enchistory", Prog: b.Prog.ID, Mask: b.Mask, PeerMask: -1, Type: pk.Type, Order: drawOrder(c.R)}
+	recs := b.Schema.Records()
+	for i, n := 0, c.R.Range(2, 5); i < n; i++ {
+		typ := pk.Type
+		if c.R.Chance(1, 2) {
+			d := recs[c.R.Intn(len(recs))]
+			if b.Types[d.Name] != nil && pk.Gen.Inhabited(d.Name) {
+				typ = d.Name
+			}
+		}
+		sc.Types = append(sc.Types, typ)
+		sc.Values = append(sc.Values, pk.Gen.Record(typ))
+	}
+	for i := range sc.Values {
+		op := proto.EncOp{Rec: i, Dest: c.R.Intn(2), Held: c.R.Chance(1, 2)}
+		if i+1 < len(sc.Values) && c.R.Chance(1, 3) {
+			// the next record is encoded by another caller while this encode is inside a Write
+			op.At = c.R.Range(1, 6)
+			if c.R.Chance(1, 4) {
+				op.At = 1 << 20 // "the last Write": clamped by the executor
+			}
+			op.Inner = &proto.EncOp{Rec: i + 1, Dest: 1 - op.Dest, Held: c.R.Chance(1, 2)}
+			sc.EncOps = append(sc.EncOps, op)
+			i++
+			continue
+		}
+		sc.EncOps = append(sc.EncOps, op)
+	}
+	return sc
+}
+
+func execEncHistory(n *Node, sc *Scenario) *Violation {
+	b := n.Build(sc.Prog, sc.Mask, false)
+	if b == nil {
+		note(sc, "skipped", "build absent")
+		return nil
+	}
+	simrt.ResetPools()
+	var recs []reg.Record
+	var want [][]byte
+	for i := range sc.Values {
+		rec, err := n.fill(b, sc.Types[i], sc.Values[i])
+		if err != nil {
+			return mismatch("bridge|fill", err.Error(), nil)
+		}
+		m := n.encode(rec, "marshal", sc.Order, nil, nil, "")
+		if v := callViolation(&m.Call, sc, b.Schema, "marshal"); v != nil {
+			return v
+		}
+		recs = append(recs, rec)
+		want = append(want, m.Bytes)
+	}
+	sinks := [2]*simnet.Sink{simnet.NewSink(nil), simnet.NewSink(nil)}
+	var held [2]io.Writer
+	for d := range held {
+		held[d] = iohelp.NewErrorWriter(struct{ io.Writer }{sinks[d]})
+	}
+	var expect [2][]byte
+	var viol *Violation
+	simrt.SetMapOrder(sc.Order.Strategy, sc.Order.Seed)
+	defer simrt.SetMapOrder(simrt.OrderNative, 0)
+	var run func(op *proto.EncOp, depth int)
+	run = func(op *proto.EncOp, depth int) {
+		if viol != nil || op.Rec >= len(recs) || op.Dest < 0 || op.Dest > 1 {
+			return
+		}
+		kind := recordKind(b.Schema, sc.Types[op.Rec])
+		var w io.Writer = struct{ io.Writer }{sinks[op.Dest]}
+		if op.Held {
+			w = held[op.Dest]
+		}
+		sink := sinks[op.Dest]
+		start := len(sink.Calls)
+		fired := false
+		if op.Inner != nil && depth == 0 && op.Inner.Dest != op.Dest {
+			// how many Write calls the encode makes is not known in advance: "at or after the
+			// At-th" is decided per call, the last chance being the final byte of the record
+			total := len(expect[op.Dest]) + len(want[op.Rec])
+			sink.Hook = func(call int) {
+				if fired {
+					return
+				}
+				if call-start >= op.At || len(sink.Buf) >= total-1 {
+					fired = true
+					run(op.Inner, depth+1)
+				}
+			}
+		}
+		var err error
+		cr := safeCall(0, 0, func() { err = recs[op.Rec].EncodeBebop(w) })
+		sink.Hook = nil
+		expect[op.Dest] = append(expect[op.Dest], want[op.Rec]...)
+		if viol != nil {
+			return
+		}
+		if v := callViolation(&cr, sc, b.Schema, "encode"); v != nil {
+			viol = v
+			return
+		}
+		if err != nil {
+			viol = mismatch("enc-history-error|"+kind, fmt.Sprintf("EncodeBebop of record %d (%s) onto a healthy writer failed: %v", op.Rec, sc.Types[op.Rec], err), map[string]string{"record_kind": kind})
+			return
+		}
+		if op.Inner != nil && depth == 0 && !fired {
+			run(op.Inner, depth+1) // the record made no Write at all: the other caller runs afterwards
+		}
+	}
+	for i := range sc.EncOps {
+		run(&sc.EncOps[i], 0)
+	}
+	if viol != nil {
+		return viol
+	}
+	for d := range sinks {
+		if !bytes.Equal(sinks[d].Buf, expect[d]) {
+			return mismatch("enc-history-bytes", fmt.Sprintf("destination %d holds %d bytes, the records encoded onto it are %d bytes (MarshalBebop); first difference at %d", d, len(sinks[d].Buf), len(expect[d]), firstDiff(sinks[d].Buf, expect[d])),
+				map[string]string{"op": "encode"})
 		}
 	}
 	return nil
